@@ -116,3 +116,9 @@ impl Strategy {
         counter.fetch_add(1, Ordering::Relaxed);
     }
 }
+
+/// When set, [`thread_pool`](crate::thread_pool) returns a pool that runs
+/// everything inline on the calling thread. Set once at start-up by
+/// simulations in which a deterministic scheduler owns the caller threads.
+pub static FORCE_INLINE_THREAD_POOL: std::sync::atomic::AtomicBool =
+    std::sync::atomic::AtomicBool::new(false);
